@@ -93,7 +93,32 @@ Theorem C01_section_fv_image : forall vb, vol_ok dec enc u2s s2u nvar vb -> 4 + 
   sec_ok dec enc u2s s2u nvar (sec_bytes 23 vb).
 Proof. exact (sec_ok_fv dec enc u2s s2u nvar). Qed.
 
+(* the whole pipeline on a bare BIOS region (what uefi.Parse does for images without a flash
+   descriptor; a single firmware volume is the case of one pair with empty paddings): for any
+   non-empty sequence of (padding, ok volume) pairs and trailing padding in which the parser's own
+   signature scan finds each volume where it is, Parse followed by Save returns the input bytes. *)
+Theorem C01_save_identity_region : forall l trail,
+  l <> [] ->
+  Forall (fun pv => pair_scan_ok (fst pv) (snd pv) /\ bytes_ok (fst pv) = true /\
+                    vol_ok dec enc u2s s2u nvar (snd pv)) l ->
+  find_fv_offset trail < 0 ->
+  exists d0, forall d, (d0 <= d)%nat ->
+    save_region dec enc u2s s2u nvar d (region_bytes l trail) = Ok (region_bytes l trail).
+Proof. exact (region_save_identity dec enc u2s s2u nvar). Qed.
+
 End C01.
+
+(* the scan hypotheses of C01_save_identity_region, from checkable conditions: 8-aligned padding,
+   and no earlier 8-byte-stepped window (in the padding or the first 40 bytes of the volume header)
+   reading "_FVH" — these are exactly the images on which fiano finds the volume at all *)
+Theorem C01_scan_pair : forall p v,
+  (zlen p) mod 8 = 0 -> 72 <= zlen v -> sub 40 4 v = FVH ->
+  scan_clear (Z.to_nat (zlen p / 8) + 1) (p ++ v) 32 = true -> pair_scan_ok p v.
+Proof. exact (pair_scan_ok_intro (fun _ _ => None) (fun _ _ => None) (fun b => b) (fun b => b) (fun _ => None)). Qed.
+
+Theorem C01_scan_trail : forall trail,
+  scan_clear (Z.to_nat (zlen trail / 8) + 1) trail 32 = true -> find_fv_offset trail < 0.
+Proof. exact (trail_scan_ok_intro (fun _ _ => None) (fun _ _ => None) (fun b => b) (fun b => b) (fun _ => None)). Qed.
 
 Print Assumptions C01_section_leaf.
 Print Assumptions C01_section_guid_opaque.
@@ -104,6 +129,9 @@ Print Assumptions C01_file_opaque.
 Print Assumptions C01_file_sections.
 Print Assumptions C01_volume.
 Print Assumptions C01_section_fv_image.
+Print Assumptions C01_save_identity_region.
+Print Assumptions C01_scan_pair.
+Print Assumptions C01_scan_trail.
 
 (* ---- non-vacuity: a concrete driver file with four sections satisfies the hypotheses, and the
    model really parses and re-assembles it to the same bytes ---- *)
@@ -126,3 +154,24 @@ Example ex_file_roundtrip :
   | _ => false
   end = true.
 Proof. vm_compute. reflexivity. Qed.
+
+(* a region: 16 bytes of padding, a volume holding the driver file above (8-byte aligned, no
+   alignment attribute), a pad-type file and 40 bytes of free space, then 24 bytes of trailing
+   padding; the model parses and saves it to the same bytes, and the scan conditions hold *)
+Definition ex_padfile : bytes := raw_file_bytes (zrepeat 255 16) 9 170 240 0 248 (zrepeat 255 8).
+Definition ex_vol : bytes :=
+  vol_bytes (zrepeat 0 16) FFS2 327423 0 2 4 64 [ex_file; ex_padfile] 40.
+Definition ex_region : bytes := region_bytes [(zrepeat 171 16, ex_vol)] (zrepeat 205 24).
+
+Example ex_region_roundtrip :
+  match save_region (fun _ _ => None) (fun _ _ => None) ex_u2s ex_s2u (fun _ => None) 5 ex_region with
+  | Ok b => bytes_eqb b ex_region
+  | _ => false
+  end = true.
+Proof. vm_compute. reflexivity. Qed.
+
+Example ex_region_scan :
+  scan_clear (Z.to_nat (16 / 8) + 1) (zrepeat 171 16 ++ ex_vol) 32 = true /\
+  sub 40 4 ex_vol = FVH /\ files_aligned 72 [ex_file; ex_padfile] = true /\
+  scan_clear (Z.to_nat (24 / 8) + 1) (zrepeat 205 24) 32 = true.
+Proof. vm_compute. repeat split; reflexivity. Qed.
